@@ -7,6 +7,7 @@ them is left as it is (and then makes the rule that meets it undecided, never si
                              function's *vararg, whose value is always a tuple; guards with the captures substituted)
   (x := E) in a statement ->  x = E before the statement, when E is the first thing the statement evaluates, or E is pure and
                              everything evaluated before it is a plain read
+  x: T = v (in a function) -> x = v
   g = partial(f, a, ..)  ->  calls g(b, ..) become f(a, .., b, ..) when g is bound once to a local and the frozen arguments are names that
                              are not rebound afterwards
 """
@@ -285,6 +286,14 @@ def _block(stmts, vararg, log, where):
                 log.append(f'N0 {where}: match statement over {ast.unparse(st.subject)} rewritten as an if/elif chain ({len(st.cases)} cases)')
                 out.extend(r)
                 continue
+        if isinstance(st, ast.AnnAssign):
+            # x: T = v  ->  x = v ;  a bare declaration `x: T` has no effect at run time (inside a function)
+            if st.value is None:
+                if isinstance(st.target, ast.Name):
+                    continue
+            else:
+                st = ast.copy_location(ast.Assign(targets=[st.target], value=st.value, lineno=st.lineno), st)
+                log.append(f'N0 {where}: annotated assignment to {ast.unparse(st.targets[0])} written as a plain assignment')
         pre = _hoist_walrus(st)
         if pre:
             log.append(f'N0 {where}: assignment expression(s) {[p.targets[0].id for p in pre]} hoisted before the statement')
@@ -298,7 +307,7 @@ def _block(stmts, vararg, log, where):
 def desugar_tree(tree, path, log):
     for node in ast.walk(tree):
         if isinstance(node, (ast.FunctionDef, ast.AsyncFunctionDef)):
-            if not any(isinstance(n, (ast.Match, ast.NamedExpr)) or (isinstance(n, ast.Call) and (getattr(n.func, 'id', None) == 'partial' or getattr(n.func, 'attr', None) == 'partial'))
+            if not any(isinstance(n, (ast.Match, ast.NamedExpr, ast.AnnAssign)) or (isinstance(n, ast.Call) and (getattr(n.func, 'id', None) == 'partial' or getattr(n.func, 'attr', None) == 'partial'))
                        for n in ast.walk(node)):
                 continue
             where = f'{path}::{node.name}'
